@@ -105,7 +105,17 @@ def op_set_field(w, kind, i, field, val):
         elif field == "shape":
             o.shape = None if val is None else ir.Shape(list(val))
         elif field == "const_value":
-            o.const_value = None if val is None else ir.Tensor(__import__("numpy").array([float(val)], dtype="float32"), name="cv")
+            if val == "lazy":
+                # a small constant that must never be materialised by looking at it (doing so raises)
+                def thunk():
+                    raise RuntimeError("lazy constant was materialised")
+
+                o.const_value = ir.LazyTensor(thunk, dtype=ir.DataType.FLOAT, shape=ir.Shape([2]), name="cv_lazy")
+            elif val == "external":
+                # a small constant stored in a data file that is not there (yet): reading it raises
+                o.const_value = ir.ExternalTensor("c20_missing.bin", 0, 8, ir.DataType.FLOAT, shape=ir.Shape([2]), name="cv_ext", base_dir="/dev/shm/c20-no-such-dir")
+            else:
+                o.const_value = None if val is None else ir.Tensor(__import__("numpy").array([float(val)], dtype="float32"), name="cv")
         else:
             setattr(o, field, val)
 
@@ -143,6 +153,8 @@ def extra_ops(w):
                 ("set_field", "n", n, "overload", "ov"), ("attr_set", n, "k")]
     for v in range(min(len(w.values), 3)):
         ops += [("set_field", "v", v, "type", 1), ("set_field", "v", v, "shape", (2, 3)), ("set_field", "v", v, "const_value", 2)]
+    for v in range(min(len(w.values), 2)):
+        ops += [("set_field", "v", v, "const_value", "lazy"), ("set_field", "v", v, "const_value", "external")]
     return ops
 
 
@@ -295,15 +307,22 @@ def check_history(seed, ops):
         for o in ops:
             outs.append(w.apply(o))
             with contextlib.redirect_stdout(sink):
-                j.display()
+                try:
+                    j.display()
+                except Exception as e:  # noqa: BLE001
+                    v.append(("looking_at_the_journal_raises", f"{type(e).__name__}: {e}"[:120]))
+                    break
     compare("inspected", outs, w.canon())
     if len(j.entries) != n_after:
         v.append(("inspection_changes_the_number_of_entries", (len(j.entries), n_after)))
     with contextlib.redirect_stdout(sink):
-        j.display()
-        for e in j.entries:
-            e.display()
-            bool(e.obj)  # looked at, not kept
+        try:
+            j.display()
+            for e in j.entries:
+                e.display()
+                bool(e.obj)  # looked at, not kept
+        except Exception as e:  # noqa: BLE001
+            v.append(("looking_at_the_journal_raises", f"{type(e).__name__}: {e}"[:120]))
     d = table_diff()
     if d:
         v.append(("classes_not_restored_after_exit", d[:3]))
